@@ -65,6 +65,10 @@ func (n *BitcoinNode) handleMessage(ctx context.Context, connection net.Conn) er
 		timeout = time.Minute
 	}
 
+	// The handler of an extended message updates the length in the header, so take the declared
+	// length for the warning below before the handler is started.
+	declaredLength := header.Length
+
 	errChan := make(chan error, 1)
 	start := time.Now()
 	go func() {
@@ -83,7 +87,7 @@ func (n *BitcoinNode) handleMessage(ctx context.Context, connection net.Conn) er
 		case <-time.After(timeout):
 			logger.WarnWithFields(ctx, []logger.Field{
 				logger.String("command", command),
-				logger.String("size", sizeString(header.Length)),
+				logger.String("size", sizeString(declaredLength)),
 				logger.MillisecondsFromNano("elapsed_ms", time.Since(start).Nanoseconds()),
 			}, "Waiting for handle message")
 		}
